@@ -34,7 +34,8 @@ PROPS = {
         real_vs_stub=REAL,
         assumptions=COMMON_ASSUME + ["TSan keeps a bounded per-word access history (false negatives possible for very old accesses, never false positives)"],
         expected_probes=["probe_actor_blocked_on_mutex", "probe_lin_history_with_overlapping_ops", "probe_multiple_use_calls", "probe_multiple_failing_use_calls",
-                         "probe_engine_created_by_a_thread_that_ended", "probe_callback_invoked_by_another_thread_than_its_maker"],
+                         "probe_engine_created_by_a_thread_that_ended", "probe_callback_invoked_by_another_thread_than_its_maker",
+                         "probe_multiple_imports_of_one_namespace", "probe_conversion_types_known_in_advance"],
         **two(40, 420,
               {"tsan": {"workers": 8}, "asan": {"workers": 8}},
               {"tsan": {"workers": 8}, "asan": {"workers": 6}, "plain": {"workers": 2}}),
@@ -46,11 +47,13 @@ PROPS = {
               "interleave under the seeded scheduler. distinct = hash of (op kind, actor, slot) sequence x interleaving; non-trivial = at least "
               "one engine destroyed or one context switch. Oracle: per-generation dictionary model (locals per actor, functions, globals, "
               "conversions, used files, the embedder's long-lived extension Module, attributes attached to computed values); every value encodes its "
-              "engine generation; up to three further engines are created, used and destroyed inside another engine's use()."),
+              "engine generation; up to three further engines are created, used and destroyed inside another engine's use(); syntax trees parsed once "
+              "by the embedder are evaluated in whichever engine an operation names and must answer from that engine."),
         real_vs_stub=REAL,
         assumptions=COMMON_ASSUME + ["creation/destruction of an engine is ordered with its uses by the user (plan order per slot)"],
         expected_probes=["probe_destroyed_by_other_thread_than_user", "fault_engine_recreate_same_address", "probe_engine_used_nested_inside_use_of_another", "probe_engine_built_from_extended_library",
-                         "probe_long_lived_module_added", "probe_several_engines_nested_inside_use_of_another", "probe_attribute_attached_to_computed_value"],
+                         "probe_long_lived_module_added", "probe_several_engines_nested_inside_use_of_another", "probe_attribute_attached_to_computed_value",
+                         "probe_shared_tree_evaluated"],
         **two(40, 420,
               {"asan": {"workers": 8}, "plain": {"workers": 4}, "tsan": {"workers": 4}},
               {"asan": {"workers": 8}, "plain": {"workers": 4}, "tsan": {"workers": 4}}),
@@ -62,7 +65,9 @@ PROPS = {
               "quick) is executed on a fresh engine (seeded sample of 60/120 points x kinds only when a program has more). evaluations = "
               "individual executions; distinct non-trivial = executions in which the injected fault actually fired (each is a distinct "
               "(program, site, occurrence, kind) tuple). Oracle: H3 stack shape after == before for every eval, get_locals == completed "
-              "top-level declarations, fixed follow-up script == pristine answer."),
+              "top-level declarations, fixed follow-up script == pristine answer. The host also re-enters the engine from inside callbacks (ordinary calls and a "
+              "frame-less operator== dispatched by switch): the inner eval must leave the shape it was entered with; further engines are built / an older "
+              "engine is destroyed on the evaluating thread in mid-evaluation."),
         real_vs_stub=REAL,
         assumptions=COMMON_ASSUME + ["crash points are exhaustive per generated program, programs themselves are sampled",
                                      "Conversion_Saves::saves.size() is deliberately not part of the compared shape (a converted temporary legitimately stays until the next call)"],
